@@ -151,6 +151,18 @@ INTERESTING = [0x00, 0x01, 0x7F, 0x80, 0xFF, 0x40, 0x3F, 0xC0, 0x0F, 0xF0, 0x10,
 
 
 def rand_bytes(rng, n):
+    if n >= 4 and rng.random() < 0.08:
+        # payload bytes that look like framing: the 0x55 prefix run and the AirTouch 5 "stuffing" pattern 55 55 55 00 are ordinary data
+        # inside a payload (damper 85 %, set-point 18.5 degC ...) and must be taken literally
+        b = bytearray(_rand_bytes(rng, n))
+        run = rng.choice([b"\x55\x55\x55\x00", b"\x55\x55\x55\x55", b"\x55\x55\x55\xaa", b"\x55\x55\x55\x00\x55\x55\x55\x00"])[:n]
+        i = rng.randrange(0, n - len(run) + 1)
+        b[i:i + len(run)] = run
+        return bytes(b)
+    return _rand_bytes(rng, n)
+
+
+def _rand_bytes(rng, n):
     r = rng.random()
     if r < 0.15:
         return bytes(rng.choice(INTERESTING) for _ in range(n))
